@@ -3,6 +3,8 @@
 package client
 
 import (
+	"context"
+	"github.com/tokenized/spynode/internal/verifhook"
 	"fmt"
 	"math/rand"
 	"sync"
@@ -198,6 +200,14 @@ func TestVerif_C17(t *testing.T) {
 	rep.Assumptions = []string{"the scripted server resumes from the Ready id as the real service does", "barrier = marker message delivered through the client's FIFO handler channel"}
 	defer rep.Write()
 
+	// The server starts sending as soon as it has read the ready message: hold the goroutine that
+	// called Ready right after its write, so that the first notifications are handled before it
+	// goes on (the window between telling the server and updating the client's own state).
+	verifhook.Set("client.ready.sent", func(ctx context.Context, site string) { time.Sleep(20 * time.Millisecond) })
+	defer func() {
+		rep.Event("hook_hits:client.ready.sent", verifhook.Hits("client.ready.sent"))
+		verifhook.Set("client.ready.sent", nil)
+	}()
 	n := verifkit.N(120, 8000)
 	for ci := 0; ci < n; ci++ {
 		if !verifkit.Mine(ci) {
